@@ -89,9 +89,42 @@ def gen_program(seed: int) -> Dict[str, Any]:
             ops.append({"op": "revolve", "name": name, "face": [[20, 1, 0], [21, 1, 0], [21, 2, 0], [20, 2, 0]], "angle": round(rs.uniform(0.3, 1.2), 4), "axis": [1, 0, 0], "origin": [0, 0, 0]})
         entities.append(name)
         plain.append(name)
+    # chops: the hexahedra form edge families (union-find over their shared corner pairs); each family
+    # is chopped on exactly one member (never on the operation that is deleted later, if another member
+    # exists) - the others get counts and gradings by propagation, so every shared edge has one source
+    victim = rs.pick(plain) if (len(plain) > 1 and rs.chance(0.3)) else None
+    nm = rs.weighted([(0, 5), (1, 3), (2, 1)])  # merged pairs (declared further down)
+    hexops = [op for op in ops if op["op"] == "hex"]
+    dense = nm > 0 or victim is not None
+    if dense:
+        # merged pairs duplicate vertices, and a deleted block may have been the only link between two
+        # parts of an edge family: then every block is chopped itself
+        for nme in plain:
+            for a in range(3):
+                ops.append({"op": "chop", "target": nme, "axis": a, "args": {"count": 2}})
+        hexops = []
+    asm = models.Assembly([models.RefBlock(op["name"], [tuple(round(x, 6) for x in p) for p in op["corners"]]) for op in hexops])
+    for root, members in sorted(asm.families().items()):
+        cand = [m for m in sorted(members) if hexops[m[0]]["name"] != victim] or sorted(members)
+        bi, a, par = rs.pick(cand)
+        args: Dict[str, Any] = {"count": rs.randint(2, 4)}
+        kind = rs.weighted([("plain", 3), ("c2c", 2), ("total", 2)])
+        if kind == "c2c":
+            args["c2c_expansion"] = round(rs.uniform(0.8, 1.25), 3)
+        elif kind == "total":
+            args["total_expansion"] = round(rs.uniform(0.4, 2.5), 3)
+        ops.append({"op": "chop", "target": hexops[bi]["name"], "axis": a, "args": args})
+        # sometimes a second member asks for the same count with another expansion: blocks that lie
+        # between the two take each edge from whichever neighbour owns it (edgeGrading)
+        others = [m for m in cand if m != (bi, a, par)]
+        if len(members) >= 3 and others and rs.chance(0.4):
+            bj, a2, _ = rs.pick(others)
+            ops.append({"op": "chop", "target": hexops[bj]["name"], "axis": a2, "args": {"count": args["count"], "total_expansion": round(rs.uniform(0.4, 2.5), 3)}})
     for nme in plain:
+        if dense or any(op["name"] == nme for op in hexops):
+            continue
         for a in range(3):
-            ops.append({"op": "chop", "target": nme, "axis": a, "args": {"count": 2}})
+            ops.append({"op": "chop", "target": nme, "axis": a, "args": {"count": 2, "c2c_expansion": rs.pick([1, 1.1, 0.9])}})
     # decorations of plain operations
     p_patch = rs.pick([0.2, 0.5, 0.8])
     for nme in plain:
@@ -192,10 +225,9 @@ def gen_program(seed: int) -> Dict[str, Any]:
     late_ops: List[Dict[str, Any]] = []
     if early != "none":
         ops.append({"op": "assemble"} if early == "assemble" else {"op": "write", "path": DICT + ".early"})
-    if len(plain) > 1 and rs.chance(0.25 if early == "none" else 0.6):
-        ops.append({"op": "delete", "target": rs.pick(plain)})
+    if victim is not None and (early != "none" or rs.chance(0.8)):
+        ops.append({"op": "delete", "target": victim})
     used = sorted({(op["name"]) for op in ops if op["op"] in ("patch", "shape_patch")})
-    nm = rs.weighted([(0, 5), (1, 3), (2, 1)])
     for _ in range(nm):
         a, b = rs.pick(PATCHES), rs.pick(PATCHES)
         if a != b:
@@ -479,6 +511,41 @@ def oracle(program: Dict[str, Any], run: Dict[str, Any]) -> Tuple[List[Dict[str,
                     bad("grading-sections", f"sections {spec} do not sum to {b['counts'][a]}")
     if any(len(s) > 1 for s in edge_counts.values()):
         bad("shared-edge-counts", "two hex entries disagree on the cell count of a shared edge")
+    # ... and on its grading: the same sequence of relative cell sizes from either block
+    # (aligned or reversed); every shared edge of the generated scripts has exactly one chopped source
+    edge_seqs: Dict[frozenset, List[Tuple[int, List[float]]]] = {}
+    for bi_, b in enumerate(d.blocks):
+        for a in range(3):
+            for k, (u, v) in enumerate(hexref.AXIS_EDGES[a]):
+                i0, i1 = b["idx"][u], b["idx"][v]
+                if i0 == i1:
+                    continue
+                seq = models.cell_sizes(1.0, b["gradings"][4 * a + k], b["counts"][a])
+                if seq is None:
+                    continue
+                if i0 > i1:
+                    seq = list(reversed(seq))
+                edge_seqs.setdefault(frozenset((i0, i1)), []).append((bi_, seq))
+    chopped_dirs = {(op["target"], op["axis"]) for op in program["ops"] if op["op"] == "chop"}
+    entry_name = {match[oi]: o.name for oi, o in enumerate(ref.ops)}
+    entry_axis_of_edge: Dict[Tuple[int, frozenset], int] = {}
+    for bi_, b in enumerate(d.blocks):
+        for a in range(3):
+            for (u, v) in hexref.AXIS_EDGES[a]:
+                entry_axis_of_edge[(bi_, frozenset((b["idx"][u], b["idx"][v])))] = a
+    for key, lst in edge_seqs.items():
+        # an edge that two chopped directions own themselves may carry two different demands: not judged
+        owners = sum(1 for (bj, _) in lst if (entry_name.get(bj), entry_axis_of_edge.get((bj, key))) in chopped_dirs)
+        if owners >= 2:
+            continue
+        stats["graded_shared_edges"] = stats.get("graded_shared_edges", 0) + (1 if len(lst) > 1 else 0)
+        for (bj, seq) in lst[1:]:
+            if not models.seq_close(lst[0][1], seq, 1e-6, 1.0):
+                bad("shared-edge-gradings", f"edge {sorted(key)}: hex entry {lst[0][0]} describes relative cell sizes {[round(x, 5) for x in lst[0][1]]}, entry {bj} {[round(x, 5) for x in seq]}")
+                break
+        else:
+            continue
+        break
     # vertex projection labels
     for oi, o in enumerate(ref.ops):
         idx = d.blocks[match[oi]]["idx"]
